@@ -341,6 +341,17 @@ def sc_shape(V, P, cfg):
     n_def = len(V.c.defined) if V.symbolic else 0
     N = d.eval_shape_fun(pos)
     dN = d.eval_shape_fun_der(pos)
+    # a second evaluation at another point of the element while the first results are still in use (integration loops keep
+    # several evaluations): every clause below is about the FIRST results and is evaluated after the second call
+    xb = []
+    for a in range(dim):
+        xa = V.real("xyz"[a] + "b", default=[-0.2, 0.3, -0.7][a])
+        V.assume(xa >= -size[a] / 2)
+        V.assume(xa <= size[a] / 2)
+        xb.append(xa)
+    posb = np.array(xb, dtype=object if V.symbolic else float)
+    Nb = d.eval_shape_fun(posb)
+    dNb = d.eval_shape_fun_der(posb)
     if V.symbolic:
         # finite values on the whole closed element (faces, edges and nodes included): no divisor may vanish there
         P.no_division_by_zero("N,dN finite on the closed element (no division by zero)", n_def, kind="finite")
@@ -375,6 +386,11 @@ def sc_shape(V, P, cfg):
         for e in range(dim):
             K.eq("dN[%s,%d]==d/d%s closed-form" % ("xyz"[e], l, "xyz"[e]), dN[e, l], dN_ref(l, e, x), "shape-derivatives")
     K.eq("sum N == 1", tot, 1, "partition-of-unity")
+    if np.shape(Nb) == (en,) and np.shape(dNb) == (dim, en):
+        for l in range(en):
+            K.eq("second-point:N[%d]==closed-form" % l, Nb[l], N_ref(l, xb), "shape-values")
+            for e in range(dim):
+                K.eq("second-point:dN[%s,%d]==closed-form" % ("xyz"[e], l), dNb[e, l], dN_ref(l, e, xb), "shape-derivatives")
     if V.symbolic:
         # reported derivatives == exact derivative of the reported shape functions (term differentiation)
         from symx import diffz3
